@@ -1207,6 +1207,9 @@ INFO = {
             'restart; distinct = distinct trace digests',
             'components': _COMPONENTS, 'assumptions': _ASSUME},
 }
+for _v in INFO.values():
+    _v['rule'] += (
+        '; swarm dimensions (see probes): int/float/Fraction/datetime/timedelta clocks, floats crossing 2**53, a non-default loop next to a decoy default loop, loads that quit, plain loop.switch() calls (terminal for the model), StopIteration terminators, the same SwitchWorld instance raised again, leaving a world whose dispatching the program switched off, probes into muted and into discarded worlds')
 PROBES = {
     'C13': ['flag.none', 'flag.clear_current', 'flag.clear_next',
             'flag.both', 'self_switch', 'target_uncached',
